@@ -129,7 +129,14 @@ def gen_design(r, features=("cname", "attr", "param", "names", "latch", "conn", 
     conns = []
     if "conn" in features and r.random() < 0.4:
         sc = [nb for nb in nets if nb[1] is None and nb not in outputs and nb not in inputs]
-        if len(sc) >= 2:
+        bits = [nb for nb in nets if nb[1] is not None and nb not in outputs and nb not in inputs]
+        if bits and sc and "bus" in features and r.random() < 0.5:
+            # a bus bit joined to a scalar net or to a bit of ANOTHER bus with a different index
+            a = r.choice(bits)
+            others = [nb for nb in bits if nb[0] != a[0] and nb[1] != a[1]]
+            b = r.choice(others) if others and r.random() < 0.6 else r.choice(sc)
+            conns.append((a, b) if r.random() < 0.5 else (b, a))
+        elif len(sc) >= 2:
             a, b = r.sample(sc, 2)
             conns.append((a, b))
     return {"top": fresh("top"), "inputs": inputs, "outputs": outputs, "models": models, "items": items, "conns": conns,
@@ -178,7 +185,7 @@ def write(design, r, style=True):
     items = list(design["items"])
     for it in items:
         if style and r.random() < 0.15:
-            out.append("# comment between statements")
+            out.append(r.choice(["# comment between statements", "#", "#", "#no blank", "# a\n# b"]))     # also empty comment lines
         if it["kind"] in ("subckt", "gate"):
             words = []
             for p, b, nb in it["pins"]:
